@@ -262,6 +262,16 @@ void suite_args(int tier) {
         }
         stripe_free(&s);
     }
+    /* inputs beyond what the int size arithmetic can hold are refused, cleanly */
+    {
+        cfg_t cs[] = { { 6, 4, 2, 2, 2 }, { 3, 5, 5, 3, 1 }, { 0, 4, 2, 2, 1 }, { 6, 1, 1, 1, 2 }, { 6, 31, 1, 1, 1 } };
+        for (unsigned ci = 0; ci < 5; ci++) {
+            uint64_t am = (uint64_t)cs[ci].k * cfg_wbytes(cs[ci]);
+            uint64_t lens[] = { 2147483647ull - am - 80 + 1, 2147483647ull - am, 2147483647ull, 2147483648ull, 2147483648ull + 4096, 4294967295ull, 4294967296ull,
+                                4294967296ull + 4096, 1ull << 40, 1ull << 63, ~0ull };
+            for (unsigned q = 0; q < sizeof lens / sizeof lens[0]; q++) { op_enclen(cs[ci], lens[q]); stat_add("args.too_large", 1); }
+        }
+    }
     /* the box of shapes: create refuses, or the instance survives a full cycle */
     int bes[] = { 0, 6, 1, 2, 5, 8, 4, 7, 9, 12 };
     for (unsigned b = 0; b < sizeof bes / sizeof bes[0]; b++) for (int k = -1; k <= 33; k++) for (int m = -1; m <= 33; m++) {
